@@ -202,6 +202,9 @@ class AngularCoordinates(CustomNumpyArray):
         other_xyz = other.to_3d()
         coord_diff_sq = (self_xyz - other_xyz) ** 2
         dists = np.sqrt(coord_diff_sq.sum(axis=1))
+        # rounding can push the chord of (nearly) antipodal unit vectors
+        # beyond the diameter of the unit sphere
+        dists = np.minimum(dists, 2.0)
         return AngularDistances.from_3d(dists)
 
 
